@@ -84,20 +84,30 @@ def hexahedron(
         if colored:
             col = hexa.faces.create_attribute("color", float, 3)
             RED,GREEN,BLUE = Vec(1.,0.,0), Vec(0.,1.,0.), Vec(0.,0.,1.)
-            col[0] = RED
-            col[1] = RED
-            col[10] = RED
-            col[11] = RED
+            if triangulate: # two triangles per side of the hexahedron
+                col[0] = RED
+                col[1] = RED
+                col[10] = RED
+                col[11] = RED
 
-            col[2] = GREEN
-            col[3] = GREEN
-            col[6] = GREEN
-            col[7] = GREEN
-            
-            col[4] = BLUE
-            col[5] = BLUE
-            col[8] = BLUE
-            col[9] = BLUE
+                col[2] = GREEN
+                col[3] = GREEN
+                col[6] = GREEN
+                col[7] = GREEN
+
+                col[4] = BLUE
+                col[5] = BLUE
+                col[8] = BLUE
+                col[9] = BLUE
+            else: # one quad per side: the color of its two triangles (only face ids 0..5 exist)
+                col[0] = RED
+                col[5] = RED
+
+                col[1] = GREEN
+                col[3] = GREEN
+
+                col[2] = BLUE
+                col[4] = BLUE
     return _instanciate_raw_mesh_data(hexa)
 
 def axis_aligned_cube(colored: bool = False, triangulate: bool = False) -> SurfaceMesh:
